@@ -192,6 +192,21 @@ fn main() {
                 std::fs::write(format!("{}/seed{:02}", dir, n), &bytes).unwrap();
             }
         }
+        "stackprobe" => {
+            // one call on a thread with the given stack size (C01 stack stage; a stack overflow aborts this process)
+            let stack: usize = args[2].parse().expect("stack bytes");
+            let ev = api::Ev::from_name(&args[3]).expect("evaluator");
+            let ph = api::Val::dec(&args[4]).expect("placeholder");
+            let input = args[5].clone();
+            let h = std::thread::Builder::new()
+                .stack_size(stack)
+                .spawn(move || {
+                    let o = api::eval(ev, &input, &ph);
+                    println!("{}", o.enc());
+                })
+                .expect("spawn");
+            let _ = h.join();
+        }
         "selftest" => {
             props::selftest();
         }
